@@ -151,6 +151,21 @@ Definition cmp_system (tol : Q) (c : sys_case) : list (nat * nat * nat) :=
               if neqb (fst d) (fst f) && neqb (snd d) (snd f)
                  && neqb (fst (f_final fs sup i)) (fst (ffin i)) then [] else [(4, i, j)%nat]) (sy_sample c).
 
+(* ---- the computed hypotheses of the structure-level theorems (Proofs/SystemProofs.v:
+   C01_solved_structure_has_equilibrated_interior_nodes, C02_system_gives_interior_equilibrium,
+   C03_support_forces_in_global_equilibrium) on the implementation's own sliced, numbered structure:
+   (numbers below the count, interior numbers private / unsupported / with a row, geometry and
+   stiffness of every element sound) ---- *)
+From Inkfem Require Import Proofs.SystemProofs.
+Definition hyp_system (c : sys_case) : bool * bool * bool :=
+  let bars := sy_bars c in
+  let sup := supported_of (sy_nodes c) in
+  (nums_below_b (sy_n c) bars, interior_private_fast (sy_n c) sup bars, forallb slices_sound_b bars).
+(* alarm codes: 1 a number is not below the count; 2 an interior slice node's numbers are not its own *)
+Definition hyp_alarms (c : sys_case) : list (nat * nat * nat) :=
+  let h := hyp_system c in
+  (if fst (fst h) then [] else [(1, 0, 0)%nat]) ++ (if snd (fst h) then [] else [(2, 0, 0)%nat]).
+
 (* ---- C04: the statement of bar_equivalence evaluated on a case (a test of the theorem's
    statement on the bars the implementation ran, not a proof) ---- *)
 From Inkfem Require Import Spec.Resultant.
